@@ -1,0 +1,30 @@
+//go:build verif
+
+// Contracts for the verification machinery in /verif (comment-only; no declarations).
+// C04 on the shared TCP listener: an accepted connection's resource scope is released on every path that drops
+// the connection before it is handed to a demultiplexed listener (whose Accept passes the scope on to the upgrader).
+
+package tcpreuse
+
+//@ func (c *connWithScope) Close
+//@ prop C04
+//@ ensures called(Done, 0) && arg(Done, 0, 0) == old(c.ConnScope)
+//@ ensures ghost.done(old(c.ConnScope))
+//@ noframe
+
+//@ func manetConnWithScope
+//@ prop C04
+//@ ensures result1 == nil ==> result0 != nil && result0.ConnScope == scope
+//@ ensures result1 != nil ==> result0 == nil
+//@ modifies nothing
+
+// Each iteration of the accept loop either releases the scope it was given (queue full, listener closed) or hands
+// the connection to a demultiplexing goroutine (wg.Add); that goroutine either releases the scope or passes the
+// scope-carrying connection to the registered listener's buffer.
+//@ func (m *multiplexedListener) run
+//@ prop C04
+//@ loop 0 iteration ghost.done(connScope) || ncalls(Add, 0) == prev(ncalls(Add, 0)) + 1
+//@ noframe
+//@ closure 0
+//@ ensures ghost.done(connScope) || (sent(demux.buffer) && sentval(demux.buffer).ConnScope == connScope)
+//@ noframe
